@@ -40,7 +40,12 @@ void ledger_dump(char *buf, size_t n);/* short description of live blocks */
 unsigned long ledger_mark(void);      /* monotonically increasing allocation serial */
 long ledger_allocs_total(void);
 void vh_lib_free(void *p);           /* release a block the library allocated and handed out */
-extern int ledger_fail_after;         /* unused (allocation failure is not injected) */
+extern int ledger_fail_after;         /* unused */
+/* allocation-failure injection (engine M): only requests whose call site lies in the object containing `any_symbol_in_object` count */
+void alloc_fault_scope(void *any_symbol_in_object);      /* NULL: injection and counting off */
+extern long alloc_fail_at;            /* 1-based ordinal of the request to fail; 0 = none */
+extern long alloc_fail_from;          /* every request from this ordinal on fails; 0 = none */
+extern long alloc_seen, alloc_failed; /* requests seen in scope / made to fail since the engine last zeroed them */
 
 /* ---------- guarded placement ---------- */
 enum { GP_END = 0, GP_START16 = 1, GP_ODD = 2 };
